@@ -1,12 +1,19 @@
 import Dbg.Lemmas.SymProof
 import Dbg.Model.Pipeline
+import Dbg.Lemmas.FilterRc
+import Dbg.Lemmas.LinkCongr
+import Dbg.Props.C01
+import Dbg.Props.C05
 /-! # C06 — Strand symmetry when unstranded, strand separation when stranded
 
-Proved so far (string level): the canonical form chosen by `min_rc_flip` is the lexicographic minimum of a k-mer and
-its reverse complement, is the same for both, the flip flags of the two are opposite unless the k-mer is its own
-reverse complement, and in stranded mode no canonicalisation happens.  The invariance of the table and of the three
-pipelines under reverse-complementing any subset of reads is an executable predicate evaluated on the crate's
-outputs (partial). -/
+String level: the canonical form chosen by `min_rc_flip` is the lexicographic minimum of a k-mer and its reverse
+complement, is the same for both, the flip flags are opposite unless the k-mer is its own reverse complement, and in
+stranded mode no canonicalisation happens.  Table level (`C06_filter_rc_invariant`): for every read set (empty boundary
+extensions) and every choice of reads to reverse-complement, the unstranded table has the same keys and payloads, and
+the same extension set at every k-mer that is not its own reverse complement — proved by showing that a read and its
+reverse complement yield the same canonical observations in reverse order.  Graph level (`C06_graph_rc_invariant`): two
+tables that agree in this sense induce the same good-link relation (links never read the extension byte of a
+palindrome), hence the same partition of k-mers into nodes, node by node. -/
 namespace Compress
 
 theorem seq_lt_irrefl (x : Seq) : ¬ x < x := List.lt_irrefl x
@@ -57,5 +64,108 @@ theorem C06_flip_opposite (x : Seq) (hne : x ≠ rc x) : (minRcFlip (rc x)).2 = 
 theorem C06_stranded_no_canon (x : Seq) : canonSt true x = (x, false) := by simp [canonSt]
 
 theorem C06_unstranded_canon (x : Seq) : canonSt false x = minRcFlip x := by simp [canonSt]
+
+/-- **C06 (table).** Replacing any subset of the reads by their reverse complements changes neither the keys nor the
+    payloads (counts / label sets) of the unstranded k-mer table, nor the extension set of any k-mer that is not its own
+    reverse complement. -/
+theorem C06_filter_rc_invariant (K : Nat) (hK : 1 ≤ K) (reads : List (Seq × Exts × Nat)) (hb : Filter.NoBoundary reads)
+    (sm : Filter.Summarizer) (m : Nat → Bool) :
+    (Filter.refTable K (Filter.flipReads m 0 reads) sm false).map (fun e => (e.key, e.data)) =
+      (Filter.refTable K reads sm false).map (fun e => (e.key, e.data)) ∧
+    ∀ e ∈ Filter.refTable K (Filter.flipReads m 0 reads) sm false, Filter.palB e.key = false → e ∈ Filter.refTable K reads sm false :=
+  Filter.refTable_rc_invariant K hK reads hb sm m
+
+/-- the two tables agree position by position -/
+theorem C06_tables_agree (K : Nat) (hK : 1 ≤ K) (reads : List (Seq × Exts × Nat)) (hb : Filter.NoBoundary reads)
+    (sm : Filter.Summarizer) (m : Nat → Bool) :
+    TableAgree false (Filter.refTable K reads sm false) (Filter.refTable K (Filter.flipReads m 0 reads) sm false) := by
+  obtain ⟨h1, h2⟩ := Filter.refTable_rc_invariant K hK reads hb sm m
+  have wf := Filter.refTable_wf K hK reads hb sm false
+  have hlen : (Filter.refTable K (Filter.flipReads m 0 reads) sm false).length = (Filter.refTable K reads sm false).length := by
+    simpa using congrArg List.length h1
+  refine ⟨hlen, fun i e e' hi hi' => ?_⟩
+  have hkd : (e'.key, e'.data) = (e.key, e.data) := by
+    have := congrArg (·[i]?) h1
+    simp only [List.getElem?_map, hi, hi', Option.map_some, Option.some.injEq] at this
+    exact this
+  simp only [Prod.mk.injEq] at hkd
+  refine ⟨hkd.1, hkd.2, fun hp => ?_⟩
+  simp only [Bool.not_false, Bool.true_and] at hp
+  have hnp : Filter.palB e'.key = false := by
+    unfold Filter.palB
+    rw [hkd.1]
+    simpa using notPal_ne hp
+  have hmem := h2 e' (List.mem_of_getElem? hi') hnp
+  obtain ⟨j, hj⟩ := Filter.mem_getElem? _ e' hmem
+  have : j = i := wf.distinct j i e' e hj hi hkd.1
+  subst this
+  rw [hi] at hj; cases hj; rfl
+
+/-- **C06 (graph).** Two well-formed reciprocal tables that agree (same keys and payloads position by position, same
+    extension bytes except at palindromic keys) are compressed into the same partition: the same number of nodes, and
+    node by node the same list of canonical k-mers. -/
+theorem C06_graph_rc_invariant {D : Type} {T T' : Table D} {K : Nat} {st : Bool} {join : D → D → Bool} (reduce : D → D → D)
+    (wf : WF T K st) (hes : ExtSym T st) (wf' : WF T' K st) (hes' : ExtSym T' st) (ha : TableAgree st T T') :
+    ∃ out out', compressKmersC T st join reduce = some out ∧ compressKmersC T' st join reduce = some out' ∧
+      out'.map (fun x => (windowsOf K x.1.seq).map (fun w => (canonOf st w).1)) =
+        out.map (fun x => (windowsOf K x.1.seq).map (fun w => (canonOf st w).1)) := by
+  obtain ⟨out, h1, h2, h3⟩ := C01_nodes_are_id_paths (join := join) reduce wf hes
+  obtain ⟨out', h1', h2', h3'⟩ := C01_nodes_are_id_paths (join := join) reduce wf' hes'
+  refine ⟨out, out', h1, h1', ?_⟩
+  have hk : ∀ i, keyOf T' i = keyOf T i := by
+    intro i
+    unfold keyOf
+    cases hi : T[i]? with
+    | none =>
+      have : T'[i]? = none := by
+        apply List.getElem?_eq_none; rw [ha.len]
+        cases hd : decide (i < T.length) with
+        | true => rw [List.getElem?_eq_getElem (by simpa using hd)] at hi; cases hi
+        | false => simpa using hd
+      rw [this]
+    | some e =>
+      obtain ⟨e', he', k, _⟩ := ha.get i e hi
+      rw [he']; exact k
+  have hids : out'.map (·.2) = out.map (·.2) := by rw [h2, h2', linkOf_congr ha, ha.len]
+  have e1 : out.map (fun x => (windowsOf K x.1.seq).map (fun w => (canonOf st w).1)) = (out.map (·.2)).map (fun ids => ids.map (keyOf T)) := by
+    rw [List.map_map]
+    apply List.map_congr_left
+    intro x hx; exact h3 x hx
+  have e2 : out'.map (fun x => (windowsOf K x.1.seq).map (fun w => (canonOf st w).1)) = (out'.map (·.2)).map (fun ids => ids.map (keyOf T')) := by
+    rw [List.map_map]
+    apply List.map_congr_left
+    intro x hx; exact h3' x hx
+  rw [e1, e2, hids]
+  apply List.map_congr_left
+  intro ids _
+  apply List.map_congr_left
+  intro i _; exact hk i
+
+/-- **C06 (stranded separation).** In stranded mode the k-mers seen are exactly the k-mers of the reads as spelled
+    (never a reverse complement), and an entry records base `b` on side `d` exactly when its k-mer is followed /
+    preceded by `b` in some read as spelled. -/
+theorem C06_stranded_separation (K : Nat) (hK : 1 ≤ K) (reads : List (Seq × Exts × Nat)) (hb : Filter.NoBoundary reads)
+    (sm : Filter.Summarizer) :
+    (∀ k, k ∈ Filter.refAllKmers K reads true ↔ ∃ r ∈ reads, ∃ i, i + K ≤ r.1.length ∧ k = Filter.win r.1 K i) ∧
+    (∀ e ∈ Filter.refTable K reads sm true, ∀ d b, Filter.has e.exts d b ↔
+      ∃ r ∈ reads, ∃ i, i + K ≤ r.1.length ∧ e.key = Filter.win r.1 K i ∧ Filter.has (Filter.rawE r.1 K i) d b) := by
+  constructor
+  · intro k
+    rw [(Filter.C05_keys_ascending K reads true).2 k]
+    constructor
+    · rintro ⟨o, ho, rfl⟩
+      obtain ⟨r, hr, i, hi, rfl⟩ := (Filter.mem_observations K hK reads hb true o).mp ho
+      exact ⟨r, hr, i, hi, rfl⟩
+    · rintro ⟨r, hr, i, hi, rfl⟩
+      exact ⟨_, (Filter.mem_observations K hK reads hb true _).mpr ⟨r, hr, i, hi, rfl⟩, rfl⟩
+  · intro e he d b
+    rw [Filter.C05_exts_are_flanks K hK reads hb sm true e he (by simp) d b]
+    constructor
+    · rintro ⟨r, hr, i, hi, hc⟩
+      rcases hc with ⟨h1, h2⟩ | ⟨h0, _⟩
+      · exact ⟨r, hr, i, hi, h1, h2⟩
+      · cases h0
+    · rintro ⟨r, hr, i, hi, h1, h2⟩
+      exact ⟨r, hr, i, hi, Or.inl ⟨h1, h2⟩⟩
 
 end Compress
